@@ -5,7 +5,7 @@ from __future__ import annotations
 import ast
 
 from sa.cfg import G_EXC, all_paths_pass, both, exc_filter, find_path, fmt_path, reachable, reaches, specialize
-from sa.db import dotted, src, walk_local
+from sa.db import AnalysisError, dotted, src, walk_local
 from sa.flow import refine_constants
 from sa.model import (
     PROC_METHODS,
@@ -45,6 +45,7 @@ def run(ctx) -> None:
     rep.rule("C13.R1", "processor calls are guarded: no Exception leaves a delivery function in non-strict mode; delivery continues with the next processor", floor=6)
     rep.rule("C13.R2", "dispatchers constructed by the runners are non-strict", floor=2)
     rep.rule("C13.R3", "no processor method is called outside events/dispatcher.py", floor=1)
+    rep.rule("C13.R7", "event builders are total: observer-only code between the runner and the dispatcher's guard cannot raise on run data", floor=7)
     rep.rule("C13.R4", "code guarded by the 'active' flag only builds and emits events", floor=6)
     rep.rule("C13.R5", "dispatcher shutdown of a top-level call happens in a finally block", floor=4)
     rep.rule("C13.R6", "the list of processors is fixed after construction (own copy, never modified by a dispatcher method)", floor=5)
@@ -79,52 +80,37 @@ def run(ctx) -> None:
     rep.add("C13.R6", f"{disp.qname}:own-copy", copies, disp.loc(), "the dispatcher iterates its own copy of the caller's processor list" if copies else "the dispatcher iterates the caller's list object (the caller or a processor can change it mid-run)")
 
     # ---- R1 -----------------------------------------------------------------
-    for m in disp.methods.values():
-        sites = [c for c in db.calls_in(m) if is_processor_call(db, c, m)]
-        if not sites:
+    check_delivery_guarded(ctx, "C13.R1")
+
+    # ---- R7 -----------------------------------------------------------------
+    # The supersteps call the build_*_event helpers only when processors are registered, outside the
+    # dispatcher's guard.  An exception raised while *building* an event is observer-only behaviour that
+    # changes the run, so the builders may only construct event objects and call helpers that cannot
+    # fail on run data (ids, clock, str(), isinstance, sys.exc_info)
+    TOTAL_CALLS = {"str", "isinstance", "repr", "time.time", "sys.exc_info", "type", "len", "getattr", "id"}
+    ev_mod = "hypergraph.events.types"
+    n7 = 0
+    for f7 in db.all_funcs():
+        if f7.module.name != "hypergraph.runners._shared.event_helpers" or not f7.name.startswith("build_"):
             continue
-        cfg = ctx.cfg(m, nr_pred)
-        ef = refine_constants(cfg, both(specialize({strict_attr: False}), exc_filter(_exc_only)))
-        esc = reaches(cfg.entry, cfg.exit_raise, ef)
-        for c in sites:
-            inst = f"{m.qname}:{src(c.func)}"
-            loc = f"{m.module.rel}:{c.lineno}"
-            tr = enclosing(c, (ast.Try,))
-            loop = enclosing(c, (ast.For, ast.AsyncFor))
-            ok = True
-            why = []
-            if tr is None or not any(cfg.definitely_caught(G_EXC, cfg._handler_names(h)) for h in tr.handlers) or not any(contains(s, c) for s in tr.body):
-                ok = False
-                why.append("call is not inside a try whose handler catches Exception")
-            if loop is None or (tr is not None and not contains(loop, tr)):
-                ok = False
-                why.append("the guarding try is not inside the per-processor loop (one failure would end delivery to the others)")
-            if esc:
-                p = find_path(cfg.entry, cfg.exit_raise, ef)
-                ok = False
-                why.append(f"an Exception can leave {m.name} in non-strict mode: {fmt_path(p)}")
-            # an async processor method is awaited right here, inside its own guard: a coroutine that is
-            # collected and awaited later (gather, tasks) runs outside the guard and its siblings are abandoned
-            # when one of them fails
-            if any(cal.func is not None and cal.func.is_async for cal in db.resolve_call(c, m)) or src(c.func).endswith("_async"):
-                par = getattr(c, "_parent", None)
-                if not isinstance(par, ast.Await):
-                    ok = False
-                    why.append("the processor's coroutine is created here but not awaited inside its guard (deferred to a later gather/task): delivery to the other processors is no longer completed before the call returns")
-            if ok and tr is not None and loop is not None:
-                # after a failure control must return to the loop header
-                loop_nodes = cfg.nodes_for(loop)
-                for h in tr.handlers:
-                    for hn in cfg.nodes_for(h):
-                        if not all_paths_pass(hn, cfg.exit_return, loop_nodes, ef):
-                            ok = False
-                            why.append("after a processor failure the delivery loop is left (return/break in the handler)")
-                # no break in the loop body on the normal path either
-                for cn in cfg.node_containing(c):
-                    if not all_paths_pass(cn, cfg.exit_return, loop_nodes, ef):
-                        ok = False
-                        why.append("delivery loop can be left before all processors were served")
-            rep.add("C13.R1", inst, ok, loc, "guarded, contained and loop continues" if ok else "; ".join(why))
+        n7 += 1
+        bad7 = []
+        for c7 in db.calls_in(f7):
+            d7 = dotted(c7.func) or src(c7.func)
+            cals = db.resolve_call(c7, f7)
+            if d7 in TOTAL_CALLS:
+                continue
+            if any(cal.cls is not None and cal.cls.module.name == ev_mod for cal in cals):
+                continue
+            if any(cal.func is not None and cal.func.name.startswith("_generate_") for cal in cals):
+                continue
+            bad7.append(c7)
+        for x7 in walk_local(f7.node):
+            if isinstance(x7, (ast.Raise, ast.Assert)) or (isinstance(x7, ast.Compare) and any(isinstance(o, (ast.Lt, ast.Gt, ast.LtE, ast.GtE)) for o in x7.ops)):
+                bad7.append(x7)
+        rep.add("C13.R7", f"{f7.qname}:total", not bad7, f"{f7.module.rel}:{bad7[0].lineno if bad7 else f7.lineno}", "only constructs the event (ids, clock, str/isinstance, membership look-ups)" if not bad7 else f"'{src(bad7[0])[:60]}' can raise on run data (e.g. ordering a list that mixes END with names): the exception is raised outside the dispatcher's guard, only when processors are registered, and turns a successful node into a failed one")
+    if n7 < 7:
+        raise AnalysisError(f"only {n7} event builders found")
 
     # ---- R2 -----------------------------------------------------------------
     for f in db.all_funcs():
@@ -276,8 +262,77 @@ def run(ctx) -> None:
                 rep.add("C13.R5", f"{f.qname}:shutdown", ok, f"{f.module.rel}:{c.lineno}", "shutdown in finally" if ok else "dispatcher shutdown is not in a finally block")
 
 
+def check_delivery_guarded(ctx, rule: str, only_methods: set[str] | None = None) -> None:
+    """Every call of a processor method in the dispatcher sits in its own try (handler catches Exception)
+    inside the per-processor loop, nothing escapes in non-strict mode, and the loop goes on to the next
+    processor after a failure."""
+    from sa.summaries import NoRaise
+
+    db, rep = ctx.db, ctx.rep
+    disp = db.cls("events.dispatcher.EventDispatcher")
+    strict_attr = None
+    init = disp.methods.get("__init__")
+    if init is not None and "strict" in init.param_names:
+        for n in walk_local(init.node):
+            if isinstance(n, ast.Assign) and isinstance(n.value, ast.Name) and n.value.id == "strict":
+                for t in n.targets:
+                    if isinstance(t, ast.Attribute):
+                        strict_attr = src(t)
+    if strict_attr is None:
+        strict_attr = "self._strict"
+    nr_pred = NoRaise(db, logging_no_raise).predicate()
+    for m in disp.methods.values():
+        sites = [c for c in db.calls_in(m) if is_processor_call(db, c, m)]
+        if not sites or (only_methods is not None and m.name not in only_methods):
+            continue
+        cfg = ctx.cfg(m, nr_pred)
+        ef = refine_constants(cfg, both(specialize({strict_attr: False}), exc_filter(_exc_only)))
+        esc = reaches(cfg.entry, cfg.exit_raise, ef)
+        for c in sites:
+            inst = f"{m.qname}:{src(c.func)}"
+            loc = f"{m.module.rel}:{c.lineno}"
+            tr = enclosing(c, (ast.Try,))
+            loop = enclosing(c, (ast.For, ast.AsyncFor))
+            ok = True
+            why = []
+            if tr is None or not any(cfg.definitely_caught(G_EXC, cfg._handler_names(h)) for h in tr.handlers) or not any(contains(s, c) for s in tr.body):
+                ok = False
+                why.append("call is not inside a try whose handler catches Exception")
+            if loop is None or (tr is not None and not contains(loop, tr)):
+                ok = False
+                why.append("the guarding try is not inside the per-processor loop (one failure would end delivery to the others)")
+            if esc:
+                p = find_path(cfg.entry, cfg.exit_raise, ef)
+                ok = False
+                why.append(f"an Exception can leave {m.name} in non-strict mode: {fmt_path(p)}")
+            # an async processor method is awaited right here, inside its own guard: a coroutine that is
+            # collected and awaited later (gather, tasks) runs outside the guard and its siblings are abandoned
+            # when one of them fails
+            if any(cal.func is not None and cal.func.is_async for cal in db.resolve_call(c, m)) or src(c.func).endswith("_async"):
+                par = getattr(c, "_parent", None)
+                if not isinstance(par, ast.Await):
+                    ok = False
+                    why.append("the processor's coroutine is created here but not awaited inside its guard (deferred to a later gather/task): delivery to the other processors is no longer completed before the call returns")
+            if ok and tr is not None and loop is not None:
+                # after a failure control must return to the loop header
+                loop_nodes = cfg.nodes_for(loop)
+                for h in tr.handlers:
+                    for hn in cfg.nodes_for(h):
+                        if not all_paths_pass(hn, cfg.exit_return, loop_nodes, ef):
+                            ok = False
+                            why.append("after a processor failure the delivery loop is left (return/break in the handler)")
+                # no break in the loop body on the normal path either
+                for cn in cfg.node_containing(c):
+                    if not all_paths_pass(cn, cfg.exit_return, loop_nodes, ef):
+                        ok = False
+                        why.append("delivery loop can be left before all processors were served")
+            rep.add(rule, inst, ok, loc, "guarded, contained and loop continues" if ok else "; ".join(why))
+
+
+
 DISP = "src/hypergraph/events/dispatcher.py"
 VARIANTS = [
+    Variant("route-event-sorts-decision", "src/hypergraph/runners/_shared/event_helpers.py", replace_once("        decision=state.routing_decisions[node.name],", "        decision=sorted(set(state.routing_decisions[node.name])) if isinstance(state.routing_decisions[node.name], list) else state.routing_decisions[node.name],"), {"C13.R7"}),
     Variant("async-delivery-gathered", "src/hypergraph/events/dispatcher.py", chain(replace_once("from __future__ import annotations\n", "from __future__ import annotations\n\nimport asyncio\n"), replace_once("                    await processor.on_event_async(event)", "                    pending.append(processor.on_event_async(event))"), replace_once("    async def emit_async(self, event: Event) -> None:\n        \"\"\"Send *event* to every processor, using async when available.\"\"\"\n", "    async def emit_async(self, event: Event) -> None:\n        pending = []\n")), {"C13.R1"}),
     Variant("emit-narrow-handler", DISP, sub_first(r"(processor\.on_event\(event\)\n            )except Exception:", r"\1except ValueError:"), {"C13.R1"}),
     Variant("emit-async-reraise-always", DISP, sub_once(r"(def emit_async.*?)if self\._strict:\n                    raise", r"\1if self._strict or event is not None:\n                    raise"), {"C13.R1"}),
